@@ -25,7 +25,22 @@ REACTION = ("CondensedReactionGraph", "StereoCondensedReactionGraph")
 
 
 def desc_of(s) -> tuple:
-    return (type(s).__name__, tuple(s.atoms), s.parity)
+    return (type(s).__name__, tuple(_pyint(a) for a in s.atoms), s.parity)
+
+
+def _pyint(a):
+    """ids that reached the graph as numpy integers (descriptor tuples computed with numpy) are reported as the equal
+    Python ints"""
+    if type(a) is int or a is None:
+        return a
+    try:
+        import numpy as np
+
+        if isinstance(a, np.integer):
+            return int(a)
+    except Exception:  # noqa: BLE001
+        pass
+    return a
 
 
 NUMPY_PARITY = [False]  # build(..., numpy_parity=True): parities are handed over as numpy scalars (np.sign(...) results)
@@ -39,6 +54,12 @@ def mk_desc(d):
         import numpy as np
 
         p = (np.int64, np.int8, np.int32)[abs(hash((c, len(atoms)))) % 3](p)
+    if NUMPY_PARITY[0] == "ids":
+        # the ligand order was computed with numpy (argsort over coordinates, fancy indexing): the ids in the descriptor
+        # are np.int64 scalars - equal to and hashing like the graph's Python ints, but not instances of int
+        import numpy as np
+
+        return getattr(sd, c)(tuple(np.int64(a) if type(a) is int and abs(a) < 2**62 else a for a in atoms), p)
     return getattr(sd, c)(fresh(tuple(atoms)), p)
 
 
@@ -60,16 +81,16 @@ def snap(g) -> dict:
         pg["bonds"][frozenset(b)] = {k: _attr(v) for k, v in attrs.items()}
     if hasattr(g, "atom_stereo"):
         for a, s in g.atom_stereo.items():
-            pg["astereo"][a] = desc_of(s)
+            pg["astereo"][_pyint(a)] = desc_of(s)
         for b, s in g.bond_stereo.items():
-            pg["bstereo"][frozenset(b)] = desc_of(s)
+            pg["bstereo"][frozenset(_pyint(x) for x in b)] = desc_of(s)
     if hasattr(g, "atom_stereo_changes"):
         for a, cd in g.atom_stereo_changes.items():
             v = {ch.name: desc_of(s) for ch, s in cd.items() if s is not None}
-            pg["achange"][a] = v
+            pg["achange"][_pyint(a)] = v
         for b, cd in g.bond_stereo_changes.items():
             v = {ch.name: desc_of(s) for ch, s in cd.items() if s is not None}
-            pg["bchange"][frozenset(b)] = v
+            pg["bchange"][frozenset(_pyint(x) for x in b)] = v
     return pg
 
 
@@ -116,6 +137,12 @@ def _short(x, n=300):
 # ---------------------------------------------------------------------------
 # building real graphs from plain data
 # ---------------------------------------------------------------------------
+# attribute names that coincide with parameter names of the mutators: they cannot be passed as keyword arguments of
+# add_atom / add_bond and reach a graph through set_atom_attribute / set_bond_attribute (a PDB atom name stored as
+# "atom", ...). Library code that forwards attribute dictionaries as **kwargs trips over them.
+RESERVED_NAMES = ("atom", "self", "atom1", "atom2", "attr", "value", "cls", "mapping", "copy")
+
+
 def fresh(x):
     """rebuilds every int as a NEW object (ids beyond CPython's small-int cache): two equal ids that reach the library
     from a file, JSON or arithmetic are equal but not identical - a harness that passes the very same object twice
@@ -140,7 +167,7 @@ def fresh(x):
 
 def build(pg: dict, cls_name: str | None = None, rng=None, idmap=None, rewrite=False, numpy_parity=False):
     if numpy_parity:
-        NUMPY_PARITY[0] = True
+        NUMPY_PARITY[0] = numpy_parity  # True: parities only; "ids": the ids inside descriptors as well
         try:
             return build(pg, cls_name, rng=rng, idmap=idmap, rewrite=rewrite)
         finally:
@@ -173,12 +200,17 @@ def _build(pg: dict, cls_name: str | None = None, rng=None, idmap=None, rewrite=
     for a, attrs in atoms:
         attrs = dict(attrs)
         z = attrs.pop("atom_type")
+        late = {k: attrs.pop(k) for k in list(attrs) if k in RESERVED_NAMES}
         g.add_atom(fresh(a), z, **attrs)
+        for k, v in late.items():
+            g.set_atom_attribute(fresh(a), fresh(k), v)
+    late_b = []
     for b, attrs in bonds:
         x, y = fresh(tuple(b))
         if rng is not None and rng.random() < 0.5:
             x, y = y, x
         attrs = dict(attrs)
+        late_b.append((x, y, {k: attrs.pop(k) for k in list(attrs) if k in RESERVED_NAMES}))
         if "reaction" in attrs:
             role = attrs.pop("reaction")
             if cls_name in REACTION:
@@ -191,6 +223,9 @@ def _build(pg: dict, cls_name: str | None = None, rng=None, idmap=None, rewrite=
                 g.add_bond(x, y, **attrs)
         else:
             g.add_bond(x, y, **attrs)
+    for x, y, late in late_b:
+        for k, v in late.items():
+            g.set_bond_attribute(x, y, fresh(k), v)
     if cls_name in STEREO:
         for d in ast:
             if rewrite:
